@@ -1,9 +1,151 @@
+import PbBss.Model.Trainers
+import PbBss.Model.Num
 import Driver.Util
-/-! line-protocol operations of the `Trainers` models (stub: filled in by the owner of these models) -/
+/-! line-protocol operations of the `Trainers` models (C08 / C09 correspondence).
+Floats travel as IEEE-754 bit patterns; complex numbers as (re, im) pairs. -/
+open PbBss PbBss.Align PbBss.Trainers
 namespace Driver
+
+def tinyT : Float := 2.2250738585072014e-308
+
+/-- complex division as NumPy performs it (Smith's algorithm: no overflow / underflow of `|b|²`); the textbook
+formula of `PbBss.CF` turns `z / tiny` and `z / 1e307` into NaN, which the degenerate stream of C09 reaches -/
+def smithDiv (a b : CF) : CF :=
+  if b.re.abs ≥ b.im.abs then
+    let r := b.im / b.re
+    let den := b.re + b.im * r
+    ⟨(a.re + a.im * r) / den, (a.im - a.re * r) / den⟩
+  else
+    let r := b.re / b.im
+    let den := b.re * r + b.im
+    ⟨(a.re * r + a.im) / den, (a.im * r - a.re) / den⟩
+
+instance (priority := high) instDivCFSmith : Div CF := ⟨smithDiv⟩
+
+def cfl (a : Array String) (off i : Nat) : CF := ⟨fl a off (2*i), fl a off (2*i + 1)⟩
+
+def fmtCFs (xs : List CF) : String := fmtFloats (xs.flatMap fun z => [z.re, z.im])
+
+/-- `np.linalg.eigh` of the driver: complex Jacobi iteration (`PbBss.Num.eigh`), ascending eigenvalues -/
+def eighF {n : Nat} (c : Fin n → Fin n → CF) : Eig Float CF n :=
+  let a0 : Num.Mat := Array.ofFn (n := n) fun i => Array.ofFn (n := n) fun j => (⟨(c i j).re, (c i j).im⟩ : Num.C)
+  -- the Jacobi sweeps square the entries: scale by a power of two first (exact), scale the eigenvalues back
+  let mx : Float := a0.foldl (fun m row => row.foldl (fun m z => max m (max z.re.abs z.im.abs)) m) 0
+  let ex : Int := if mx > 0 && mx.isFinite then mx.frExp.2 else 0
+  let a : Num.Mat := a0.map fun row => row.map fun z => (⟨z.re.scaleB (-ex), z.im.scaleB (-ex)⟩ : Num.C)
+  let r := Num.eigh n a
+  ⟨fun i => (r.1[i.val]!).scaleB ex, fun d i => let v := Num.Mat.get r.2 d.val i.val; ⟨v.re, v.im⟩⟩
+
+def salOf (a : Array String) (has : Nat) (off N : Nat) : Option (Fin N → Float) :=
+  if has == 1 then some (fun n => fl a off n.val) else none
+
+def normOf (n : Nat) : CovNorm := if n == 0 then .eigenvalue else if n == 1 then .trace else .none
+
+def fmtEig {D : Nat} (m : Eig Float CF D) : String :=
+  let vals := tab1 m.vals
+  let vecs := tab2 m.vecs
+  let mt : Eig Float CF D := ⟨at1 vals, at2 vecs⟩
+  fmtFloats ((List.finRange D).map (at1 vals)) ++ " " ++
+    fmtCFs ((List.finRange D).flatMap fun d => (List.finRange D).map fun e => eigCovariance (α := Float) mt d e)
 
 def opsTrainers (a : Array String) : Option String :=
   match a[0]! with
+  | "gauss" =>
+    -- gauss <type 0 full|1 diagonal|2 spherical> N D hasSal <sal N> <y N*D>     (sal block always present)
+    let ty := tokNat a 1; let N := tokNat a 2; let D := tokNat a 3
+    let sal := salOf a (tokNat a 4) 5 N
+    let yt : Tab2 N D Float := tab2 fun n d => fl a (5 + N) (n.val * D + d.val)
+    let y := at2 yt
+    let mean := fmtFloats ((List.finRange D).map (gaussMean tinyT sal y))
+    let cov :=
+      if ty == 0 then fmtFloats ((List.finRange D).flatMap fun d => (List.finRange D).map fun e => gaussCovFull tinyT sal y d e)
+      else if ty == 1 then fmtFloats ((List.finRange D).map (gaussCovDiag tinyT sal y))
+      else fmtFloats [gaussCovSph tinyT sal y]
+    some (mean ++ " " ++ cov)
+  | "cgauss" =>
+    -- cgauss N D hasSal <sal N> <y N*D complex>
+    let N := tokNat a 1; let D := tokNat a 2
+    let sal := salOf a (tokNat a 3) 4 N
+    let yt : Tab2 N D CF := tab2 fun n d => cfl a (4 + N) (n.val * D + d.val)
+    some (fmtCFs ((List.finRange D).flatMap fun d => (List.finRange D).map fun e => cgaussCov (α := Float) tinyT sal (at2 yt) d e))
+  | "vmf" =>
+    -- vmf N D hasSal lo hi <sal N> <y N*D>
+    let N := tokNat a 1; let D := tokNat a 2
+    let sal := salOf a (tokNat a 3) 6 N
+    let yt : Tab2 N D Float := tab2 fun n d => fl a (6 + N) (n.val * D + d.val)
+    let r := vmfFit tinyT (tokFloat a 4) (tokFloat a 5) sal (at2 yt)
+    some (fmtFloats ((List.finRange D).map r.1 ++ [r.2]))
+  | "watson" =>
+    -- watson N D hasSal yLo yHi maxc splineValue <sal N> <y N*D complex>; D >= 1.  Output: mode (D complex), top
+    -- eigenvalue, concentration
+    let N := tokNat a 1; let D := tokNat a 2 - 1
+    let sal := salOf a (tokNat a 3) 8 N
+    let yt : Tab2 N (D+1) CF := tab2 fun n d => cfl a (8 + N) (n.val * (D+1) + d.val)
+    let z : Tab2 N (D+1) CF := tab2 (unitRowsC (α := Float) tinyT (at2 yt))
+    let sc : Tab2 (D+1) (D+1) CF := tab2 (scatterPlain (α := Float) sal (at2 z))
+    let e := eighF (at2 sc)
+    let lam := e.vals (Fin.last D)
+    let r := watsonFit (tokFloat a 4) (tokFloat a 5) (tokFloat a 6) (fun _ => tokFloat a 7) eighF sal (at2 z)
+    some (fmtCFs ((List.finRange (D+1)).map r.1) ++ " " ++ fmtFloats [lam, r.2])
+  | "cacgstep" =>
+    -- cacgstep herm norm N D hasSal floor <sal N> <q N> <z N*D complex>   (z: unit rows, as `_fit` receives them)
+    let N := tokNat a 3; let D := tokNat a 4 - 1
+    let sal := salOf a (tokNat a 5) 7 N
+    let q : Fin N → Float := fun n => fl a (7 + N) n.val
+    let zt : Tab2 N (D+1) CF := tab2 fun n d => cfl a (7 + 2*N) (n.val * (D+1) + d.val)
+    let m := cacgStep (tokNat a 1 == 1) (normOf (tokNat a 2)) tinyT (10 * tinyT) (tokFloat a 6) eighF sal q (at2 zt)
+    some (fmtEig m)
+  | "cacgfit" =>
+    -- cacgfit herm norm N D iterations floor <y N*D complex>
+    let N := tokNat a 3; let D := tokNat a 4 - 1
+    let yt : Tab2 N (D+1) CF := tab2 fun n d => cfl a 7 (n.val * (D+1) + d.val)
+    let r := cacgFit (tokNat a 1 == 1) (normOf (tokNat a 2)) tinyT (10 * tinyT) (tokFloat a 6) eighF (at2 yt) (tokNat a 5)
+    some (fmtEig (⟨at1 r.2.1, at2 r.2.2⟩ : Eig Float CF (D+1)))
+  | "cacgeigs" =>
+    -- cacgeigs norm D floor <lam D>: eigenvalue post-processing of from_covariance alone
+    let D := tokNat a 2 - 1
+    let lam : Fin (D+1) → Float := fun i => fl a 4 i.val
+    let e := if tokNat a 1 == 0 then cacgEigsEigenvalue tinyT (tokFloat a 3) lam else cacgEigsRelative tinyT (tokFloat a 3) lam
+    some (fmtFloats ((List.finRange (D+1)).map e))
+  | "bingham" =>
+    -- bingham D hasMax maxc eps <x D-1>: tail of find_eigenvalues_v3
+    let D := tokNat a 1 - 1
+    let maxc : Option Float := if tokNat a 2 == 1 then some (tokFloat a 3) else none
+    let x : Fin D → Float := fun j => fl a 5 j.val
+    some (fmtFloats ((List.finRange (D+1)).map (binghamPost (tokFloat a 4) maxc x)))
+  | "removedup" =>
+    -- removedup D eps <lam D ascending>
+    let D := tokNat a 1 - 1
+    let lam : Fin (D+1) → Float := fun i => fl a 3 i.val
+    some (fmtFloats ((List.finRange (D+1)).map (removeDup (tokFloat a 2) lam)))
+  | "weight" =>
+    -- weight <variant> F K T <aff F*K*T> <sal F*T>
+    --   variants: 0 mean(-1) 1 mean(-3) 2 mean(-3,-1) 3 uniform(-2) 4 sal(-1) 5 sal(-3) 6 sal(-3,-1) 7 int(-1) 8 int(-3) 9 int(-3,-1)
+    let v := tokNat a 1; let F := tokNat a 2; let K := tokNat a 3; let T := tokNat a 4
+    let afft : Tab3 F K T Float := tab3 fun f k t => fl a 5 ((f.val * K + k.val) * T + t.val)
+    let st : Tab2 F T Float := tab2 fun f t => fl a (5 + F*K*T) (f.val * T + t.val)
+    let aff := at3 afft
+    let s := at2 st
+    let eps : Float := 1e-10
+    let perF (w : Fin F → Fin K → Float) := fmtFloats ((List.finRange F).flatMap fun f => (List.finRange K).map (w f))
+    let perKT (w : Fin K → Fin T → Float) := fmtFloats ((List.finRange K).flatMap fun k => (List.finRange T).map (w k))
+    let perK (w : Fin K → Float) := fmtFloats ((List.finRange K).map w)
+    match v with
+    | 0 => some (perF fun f => weightMeanT (aff f))
+    | 1 => some (perKT (weightMeanF aff))
+    | 2 => some (perK (weightMeanFT aff))
+    | 3 => some (perK (weightUniform K))
+    | 4 => some (perF fun f => weightSalT eps (aff f) (s f))
+    | 5 => some (perKT (weightSalF eps aff s))
+    | 6 => some (perK (weightSalFT eps aff s))
+    | 7 => some (perF fun f => weightIntT tinyT (aff f) (s f))
+    | 8 => some (perKT (weightIntF tinyT aff s))
+    | 9 => some (perK (weightIntFT tinyT aff s))
+    | _ => none
+  | "emtrace" =>
+    -- emtrace n: call trace of the iteration skeleton (1 = M-step, 2 = E-step)
+    let r := emFit (Γ := List Nat) (Θ := List Nat) (fun g => g ++ [1]) (fun m => m ++ [2]) (tokNat a 1) []
+    some (fmtNats (r.getD []))
   | _ => none
 
 end Driver
